@@ -17,8 +17,8 @@ from .core import Report
 
 PROP = "C13"
 FUEL = 8
-NCLS = 8  # A B C D E F G H, see _classes()
-QUERY_TYPES = [0, 1, 2, 3, 4, 6, 7, 5]
+NCLS = 10  # A B C D E F G H Z Y, see _classes()
+QUERY_TYPES = [0, 1, 2, 3, 4, 6, 7, 5, 8, 9, 0, 6]
 
 HEADER_TMPL = """From Coq Require Import List ZArith.
 From Krrood Require Import Base.Sx Onto.RegistrySpec Onto.RegistrySpecRun Onto.Registry Onto.RegistryRun.
@@ -98,7 +98,17 @@ def _classes():
         def __hash__(self):
             return hash(self.n)
 
-    cl = [A, B, C, D, E, F, G, H]
+    @dataclass(eq=False)
+    class Z(A):  # a container-like Symbol: every other instance is EMPTY, i.e. falsy, while it is perfectly alive
+        def __len__(self):
+            return self.n % 2
+
+    @dataclass(eq=False)
+    class Y(G):  # a Symbol with its own truth value: every other instance is falsy
+        def __bool__(self):
+            return self.n % 2 == 1
+
+    cl = [A, B, C, D, E, F, G, H, Z, Y]
     wc = WrappedClass(A)
     fl = [WrappedField(wc, f) for f in fields(A) if f.name in ("r0", "r1")]
     _CL = (cl, fl)
@@ -126,7 +136,8 @@ def run_history(hist: List[list]) -> Dict[str, Any]:
     gc.collect()
     SymbolGraph().clear()
     SymbolGraph()
-    SIZE = {None: 3, "attr": 4, "setof": 5}   # expression objects per query form (Variable, [Attribute..], descriptor, An)
+    # expression objects per query form (Variable, [Attribute..], descriptor, An; nested: two queries, a comparator, ...)
+    SIZE = {None: 3, "attr": 4, "setof": 5, "nested": 9}
     expected_exprs = 0
     qkey: Dict[int, Any] = {}                 # query object -> (form, selected expression to read a row with)
 
@@ -138,12 +149,19 @@ def run_history(hist: List[list]) -> Dict[str, Any]:
         if form == "setof":
             xu = x.uid
             return an(set_of([xu, x.n])), xu
+        if form == "nested":
+            # the domain-less variable is the selected variable of a NESTED query and appears in no condition
+            inner = an(entity(x))
+            w = let(cl[T], None)
+            return an(set_of([w, inner], w.uid == inner.uid)), inner
         return an(entity(x)), None
 
     def rows(form, key, res):
         """rows -> instance numbers (attribute forms return the uid attribute = the harness' number of the instance)"""
         if form is None:
             return number(res)
+        if form == "nested":
+            return number([r[key] for r in res])
         vals = [r if form == "attr" else r[key] for r in res]
         return [(v if isinstance(v, int) and v in wref and wref[v]() is not None else -2) for v in vals]
 
@@ -335,15 +353,21 @@ def run_meta(payload) -> Dict[str, Any]:
         cs = [Company(name=f"{tag}c{i}") for i in range(nc_)]
         # garbage that was related TO the objects of the assertions: a company that was a sub-organisation of cs[j] and is
         # gone (collected; its node swept or not yet) before the assertions are made
-        for k, (j, sweep) in enumerate(dead_sources):
-            g_ = Company(name=f"{tag}dead{k}")
-            g_.sub_organization_of = [cs[j % nc_]]
-            del g_
-            gc.collect()
-            if sweep:
-                SymbolGraph().remove_dead_instances()
+        def garbage(pos):
+            for k, d in enumerate(dead_sources):
+                j, sweep, at = d[0], d[1], (d[2] if len(d) > 2 else 0)
+                if at != pos:
+                    continue
+                g_ = Company(name=f"{tag}dead{k}")
+                g_.sub_organization_of = [cs[j % nc_]]
+                del g_
+                gc.collect()
+                if sweep:
+                    SymbolGraph().remove_dead_instances()
+
         log = []
-        for kind, i, j in acts:
+        for pos, (kind, i, j) in enumerate(acts):
+            garbage(pos)
             try:
                 if kind == "works_for":
                     ps[i].works_for = cs[j]
@@ -355,6 +379,7 @@ def run_meta(payload) -> Dict[str, Any]:
                     cs[i % nc_].sub_organization_of.append(cs[j])
             except Exception as e:  # noqa
                 log.append(["exc", type(e).__name__, kind, i, j])
+        garbage(len(acts))
         sg = SymbolGraph()
         num = {id(x): k for k, x in enumerate(ps + cs)}
         fields_ = [[(-1 if p.works_for is None else num.get(id(p.works_for), -2)),
@@ -817,14 +842,16 @@ def gen_history(rng: core.Rng, profile: str, nmin=4, nmax=16) -> List[list]:
     begun: set = set()
     stale: set = set()
     hist: List[list] = []
-    clss = [0, 1, 2, 3, 4, 5, 6, 7, 3, 5, 0]
+    qforms: List[Any] = []
+    clss = [0, 1, 2, 3, 4, 5, 6, 7, 3, 5, 0, 8, 8, 9]
     if profile.startswith("live"):
         # some instances, a query object and a live evaluation to start with
         for _ in range(rng.randint(1, 4)):
             hist.append(["New", rng.choice(clss)])
             user.append(nnew)
             nnew += 1
-        hist.append(["Declare", rng.choice([0, 0, 1, 2])] + rng.choice([[], [], ["attr"], ["setof"]]))
+        hist.append(["Declare", rng.choice([0, 0, 1, 2, 8])] + rng.choice([[], [], ["attr"], ["setof"]]))
+        qforms.append(hist[-1][2] if len(hist[-1]) > 2 else None)
         nq = 1
         hist.append(["Start", 0])
         open_e.append(0)
@@ -846,18 +873,20 @@ def gen_history(rng: core.Rng, profile: str, nmin=4, nmax=16) -> List[list]:
             o = [k, rng.choice(QUERY_TYPES)]
             if k != "QueryG":
                 nq += 1
-                f = rng.next() % 20       # 60% the variable itself, 25% an attribute of it, 15% a set_of of attributes
-                if f >= 12:
-                    o.append("attr" if f < 17 else "setof")
+                f = rng.next() % 20       # 55% the variable itself, 20% an attribute, 15% a set_of of attributes, 10% nested
+                if f >= 11:
+                    o.append("attr" if f < 15 else ("setof" if f < 18 else "nested"))
+                qforms.append(o[2] if len(o) > 2 else None)
             hist.append(o)
         elif k == "Eval":
             if nq == 0:
                 continue
             hist.append(["Eval", rng.next() % nq])
         elif k == "Start":
-            if nq == 0:
+            cand = [q for q in range(nq) if qforms[q] != "nested"]   # row-by-row consumption is modelled for one variable
+            if not cand:
                 continue
-            hist.append(["Start", rng.next() % nq])
+            hist.append(["Start", rng.choice(cand)])
             open_e.append(ne)
             ne += 1
         elif k == "Next":
